@@ -5,6 +5,7 @@
 import Rpki.Proofs.ManifestLemmas
 import Rpki.Proofs.UriRsync2
 import Rpki.Model.CmsDer
+import Rpki.Gen.BerModel
 namespace Rpki.Props.C14
 open Rpki.Der Rpki.Manifest
 
@@ -120,6 +121,35 @@ theorem manifest_object_octets (b : Bytes) (o : CmsDer.SigObjD) (base : Uri.Rsyn
       iterUris m base = some us ∧ us.length = m.len ∧ (∀ e ∈ es, 47 ∉ e.name) := by
   unfold CmsDer.decodeTyped at h
   cases hd : CmsDer.decodeSigObj b with
+  | none => simp [hd] at h
+  | some o' =>
+    simp only [hd] at h
+    have e1 : ("mft" = "roa") = False := by decide
+    have e2 : ("mft" = "aspa") = False := by decide
+    simp only [e1, e2, if_false, if_true] at h
+    split at h
+    · rename_i hc
+      injection h with h; subst h
+      cases hm : decodeContent o'.content with
+      | none => rw [hm] at hc; simp at hc
+      | some m =>
+        obtain ⟨es, h1, h2, h3⟩ := len_eq_iter _ m hm
+        obtain ⟨es', us, g1, g2, g3, _, g5⟩ := iterUris_inside _ m base hm
+        have : es' = es := by rw [h1] at g1; injection g1 with g1; exact g1.symm
+        subst this
+        exact ⟨m, es', us, rfl, h1, h2, h3, times_ordered _ m hm, g2, g3, g5⟩
+    · cases h
+
+/-- the same for a manifest decoded in either mode (`Manifest::decode(.., strict)` with `strict` true or false): the
+content is decoded in DER mode whatever the envelope's mode, so every conclusion carries over -/
+theorem manifest_object_octets_either_mode (ber : Bool) (b : Bytes) (o : CmsDer.SigObjD) (base : Uri.Rsync)
+    (h : CmsDer.decodeTypedM ber "mft" b = some o) :
+    ∃ m es us, decodeContent o.content = some m ∧
+      m.iter = some es ∧ es.length = m.len ∧ (∀ e ∈ es, validName e.name = true) ∧
+      civilKey m.thisUpdate ≤ civilKey m.nextUpdate ∧
+      iterUris m base = some us ∧ us.length = m.len ∧ (∀ e ∈ es, 47 ∉ e.name) := by
+  unfold CmsDer.decodeTypedM at h
+  cases hd : CmsDer.decodeSigObjM ber b with
   | none => simp [hd] at h
   | some o' =>
     simp only [hd] at h
